@@ -1,7 +1,7 @@
 # Author: Frantisek Krenzelok
 """Pure-Python RSA implementation."""
 from ecdsa.der import encode_sequence, encode_integer,  \
-    remove_sequence, remove_integer
+    remove_sequence, remove_integer, UnexpectedDER
 
 from .cryptomath import getRandomNumber, getRandomPrime,    \
     powMod, numBits, bytesToNumber, invMod,   \
@@ -153,11 +153,15 @@ class Python_DSAKey(DSAKey):
         # get r, s keys
         if not signature:
             return False
-        body, rest = remove_sequence(signature)
-        if rest:
+        try:
+            body, rest = remove_sequence(signature)
+            if rest:
+                return False
+            r, rest = remove_integer(body)
+            s, rest = remove_integer(rest)
+        except (UnexpectedDER, IndexError, ValueError):
+            # malformed DER encoding of the signature
             return False
-        r, rest = remove_integer(body)
-        s, rest = remove_integer(rest)
         if rest:
             return False
 
